@@ -5,7 +5,8 @@ cern_polygamma is replaced by its contract (contracts/harmonic_spec.py), so the 
         unpolarised space-like   gamma_qq(2) + gamma_gq(2) == 0,  gamma_qg(2) + gamma_gg(2) == 0  [momentum];   gamma_ns(1) == 0  [quark number]
         time-like (fragmentation convention: second moments D_Sigma = 2 nf, D_g = 1)   2 nf gamma_qq(2) + gamma_qg-slot(2) == 0 row-wise;   gamma_ns(1) == 0
         polarised                gamma_ns(1) == 0  [axial charge],   gamma_qg(1) == 0,   gamma_gg(1) == - beta_0
-        QED-extended             at every order (i,j) with i + j == 1 the rows g, photon, Sigma of each column of gamma_singlet_qed(2) sum to zero;
+        QED-extended             at the orders (1,0), (0,1) the rows g, photon, Sigma of each column of gamma_singlet_qed(2) sum to zero exactly; at (1,1), (0,2) exactly where the
+                                 expressions are exact, else within 1e-5 of the largest entry (a ground numerical evaluation);
                                  gamma_valence_qed(1) == 0 and gamma_ns_qed(1) == 0 for the minus modes
   (2) FHMRUVV N3LO parametrisations, for SYMBOLIC N and every nf they support: the central variation equals the mean of the down and up variations, for each of
       gg, gq, qg, ps, ns+, ns-, nsv and for the assembled N3LO singlet block.
@@ -91,6 +92,21 @@ def run(chk):
                 sums = np.array([sum((G[ij][r, c] for r in range(3)), Q(0)) for c in range(4)], dtype=object)
                 chk.eq_array(f"C25.lo.qed.momentum[nf={nf},order={ij}]", sums, np.array([Q(0)] * 4, dtype=object), fn="ekore.anomalous_dimensions.unpolarized.space_like:gamma_singlet_qed", replay=rp,
                              goal="gluon + photon + Sigma rows of every column sum to zero at N = 2")
+            # orders (1,1) and (0,2): exact where the expressions are, otherwise to the accuracy of the approximated Mellin transforms they contain
+            from pyvc import poly as _P
+            G2 = us.gamma_singlet_qed((1, 2), Q(2), nf, (0,) * 7, True)
+            for ij in ((1, 1), (0, 2)):
+                for col in range(4):
+                    ssum = T.lift(sum((G2[ij][r, col] for r in range(3)), Q(0)))
+                    exact = (ssum.is_const() and ssum.const() == 0) or _P.prove_zero(ssum)[0]
+                    if exact:
+                        chk.ground(f"C25.qed.momentum[nf={nf},order={ij},column={col}]", True, fn="ekore.anomalous_dimensions.unpolarized.space_like:gamma_singlet_qed", replay=rp, backend="poly-NF",
+                                   goal="gluon + photon + Sigma rows of the column sum to zero at N = 2 (exactly)")
+                    else:
+                        res = abs(complex(T.evalmp(ssum, {}, 40)))
+                        scale = max(abs(complex(T.evalmp(T.lift(G2[ij][r, col]), {}, 40))) for r in range(3))
+                        chk.ground(f"C25.qed.momentum[nf={nf},order={ij},column={col}]", res <= 1e-5 * max(1.0, scale), fn="ekore.anomalous_dimensions.unpolarized.space_like:gamma_singlet_qed", replay=rp, backend="exact-eval+mpmath",
+                                   goal="gluon + photon + Sigma rows of the column sum to zero at N = 2 within 1e-5 of the largest entry (approximated Mellin transforms inside)", detail=f"residual {res:.3e}, scale {scale:.3e}")
             V = us.gamma_valence_qed((1, 1), Q(1), nf, (0,) * 7, True)
             for ij in ((1, 0), (0, 1)):
                 chk.eq_array(f"C25.lo.qed.valence_number[nf={nf},order={ij}]", V[ij], np.array([[Q(0)] * 2] * 2, dtype=object), fn="ekore.anomalous_dimensions.unpolarized.space_like:gamma_valence_qed", replay=rp, goal="gamma_valence_qed(1) == 0")
